@@ -112,7 +112,12 @@ def faults(answer, plain, step=1, layouts=60):
                 setp(a, ('matches', mi) + fld, v)
                 out.append(('value:%s=%s:m%d' % ('.'.join(fld), 'n%+d' % (v - n) if abs(v - n) <= 3 else v, mi),
                             json.dumps(a).encode(), 0))
-    for s in ['a\nb', '<b>"&\'', '\x00', '', 'x' * 3000, '\u2028', ']]>', '--', '%s%d{}', '\\n\\']:
+    for s in ['a\nb', '<b>"&\'', '\x00', '', 'x' * 3000, '\u2028', ']]>', '--', '%s%d{}', '\\n\\',
+              # backslash sequences as they appear in text taken from \verb material (re templates, format strings)
+              'see \\emph here', 'a\\1b', '\\g<0>', '\\z\\d', '{0} {x} %(a)s',
+              # half of a surrogate pair, as a UTF-16 based proofreader produces when it cuts a context excerpt
+              # inside a character beyond the BMP
+              'cut \ud835', '\udd38 rest']:
         for fld in (('message',), ('context', 'text'), ('replacements', 0, 'value'), ('rule', 'id'),
                     ('rule', 'subId'), ('rule', 'category', 'name'), ('rule', 'urls', 0, 'value')):
             a = copy.deepcopy(answer)
@@ -221,7 +226,7 @@ class C15(core.Check):
             for c in allc:
                 by.setdefault(c[3], []).append(c)
             pick = []
-            share = {'delete': 160, 'type': 500, 'value': 200, 'string': 160, 'shape': 80, 'truncate': 260,
+            share = {'delete': 160, 'type': 500, 'value': 200, 'string': 320, 'shape': 80, 'truncate': 260,
                      'truncate-utf8': 120, 'garbage': 40, 'exit': 8, 'valid': 16, 'command-missing': 8, 'layout': 400}
             for k, lst in sorted(by.items()):
                 rnd.shuffle(lst)
